@@ -785,7 +785,7 @@ func exprPoly(info *types.Info, e ast.Expr, defs map[types.Object]localDef, stop
 			return exprPoly(info, d.rhs, defs, stop, depth+1)
 		}
 		if defs != nil && polyReach != nil && !stop[id.Name] {
-			if d, ok := polyReach.at(info.Uses[id], id); ok && d.pos == 0 {
+			if d, ok := polyReach.at(info.Uses[id], id); ok && d.pos == 0 && !(isSelf && opAssignDef(polyReach.last)) {
 				if isSelf && polyAbsorbed != nil {
 					polyAbsorbed[polyReach.last.Pos()] = true
 				}
@@ -868,7 +868,9 @@ func exprPoly(info *types.Info, e ast.Expr, defs map[types.Object]localDef, stop
 			return exprPoly(info, d.rhs, defs, stop, depth+1)
 		}
 		if defs != nil && polyReach != nil {
-			if d, ok := polyReach.at(info.Uses[x], x); ok && d.pos == 0 {
+			// (the target's own earlier step `t += x` is not spelled out inside a later step of the same target: the
+			// steps of one target are a list, each read against §self)
+			if d, ok := polyReach.at(info.Uses[x], x); ok && d.pos == 0 && !(isSelf && opAssignDef(polyReach.last)) {
 				if isSelf && polyAbsorbed != nil {
 					polyAbsorbed[polyReach.last.Pos()] = true
 				}
@@ -1609,4 +1611,16 @@ func absPath(info *types.Info, e ast.Expr, defs map[types.Object]localDef, depth
 		return absPath(info, x.X, defs, depth) + "[]"
 	}
 	return absName(info, e)
+}
+
+
+// opAssignDef: the defining statement is `x op= e` or x++ / x--.
+func opAssignDef(st ast.Stmt) bool {
+	switch x := st.(type) {
+	case *ast.AssignStmt:
+		return x.Tok != token.ASSIGN && x.Tok != token.DEFINE
+	case *ast.IncDecStmt:
+		return true
+	}
+	return false
 }
